@@ -7,6 +7,7 @@ CONSTANTS
   TokenPerCall = FALSE
   TokenForFailed = FALSE
   UdsKeepsToken = FALSE
+  ServeWhilePending = FALSE
 SPECIFICATION Spec
-INVARIANTS B_TokensArePositions C01_OwnListenersService B_NoPanic B_SvcOwner EmitLayout
+INVARIANTS B_TokensArePositions C01_OwnListenersService C07_NoCallWhilePending C07_WaitsThenServed B_NoPanic B_SvcOwner EmitLayout
 CHECK_DEADLOCK FALSE
